@@ -94,7 +94,7 @@ func (w *WideQ) opts() Opts {
 
 var wideConstructs = []string{"filter", "case", "in-list", "between", "fn-args", "group", "group-having", "group-by-expr", "whole-agg", "join", "left-join", "parallel-join",
 	"hash-join", "cte", "cte-twice", "derived", "sel-sub", "sel-sub-root", "in-sub", "exists", "not-exists", "union", "union-all", "order-limit", "distinct", "nested-from", "star-sub", "like-is", "join-derived", "cte-join", "in-sub-root", "exists-outer", "having-agg",
-	"join-on-fn", "join-on-fn", "join-unaliased", "join-unaliased", "derived-cte", "join-derived-cte", "in-sub-cte", "sel-sub-cte", "exists-cte", "cte-union", "cte-nested", "selector-item", "selector-item", "fuse-item", "cte-path", "star-plain", "star-plain", "group-qualified"}
+	"join-on-fn", "join-on-fn", "join-unaliased", "join-unaliased", "derived-cte", "join-derived-cte", "in-sub-cte", "sel-sub-cte", "exists-cte", "cte-union", "cte-nested", "selector-item", "selector-item", "fuse-item", "cte-path", "star-plain", "star-plain", "group-qualified", "cte-union-nested"}
 
 func genWide(t *rapid.T, only []string) *WideQ {
 	doc, sc := genC07Doc(t)
@@ -274,6 +274,7 @@ func genWideOn(t *rapid.T, doc map[string]any, sc *c07Schema, only []string) *Wi
 				mx = append(mx, in)
 			}
 			rm["mx"] = mx
+			rm["tags"] = []any{"a", "a", rapid.SampledFrom([]string{"b", "a", "c"}).Draw(t, fmt.Sprintf("tags%d", r)), "c"}
 		}
 		sel := func(l string) string {
 			n := rapid.IntRange(1, 2).Draw(t, l+".ndims")
@@ -284,6 +285,10 @@ func genWideOn(t *rapid.T, doc map[string]any, sc *c07Schema, only []string) *Wi
 			return "`mx[" + rapid.SampledFrom([]string{"", "", "keep=>"}).Draw(t, l+".keep") + strings.Join(dims, rapid.SampledFrom([]string{",", ":", ", "}).Draw(t, l+".sep")) + "]`"
 		}
 		w.Tpl = fmt.Sprintf("SELECT {F@select-item:%s} AS a1, %s AS g", k, sel("s1"))
+		if rapid.IntRange(0, 2).Draw(t, "toplevelfn") == 0 {
+			// top-level functions over arrays of the document (duplicates inside)
+			w.Tpl += ", " + rapid.SampledFrom([]string{"`distinct=>tags`", "`distinct=>mx[0]`", "`mix=>mx`", "`distinct=>tags[(0:3)]`"}).Draw(t, "tlf") + " AS tl"
+		}
 		if rapid.Bool().Draw(t, "unwind") {
 			w.Tpl += fmt.Sprintf(", UNWIND(%s) AS u", sel("s2"))
 		}
@@ -350,6 +355,14 @@ func genWideOn(t *rapid.T, doc map[string]any, sc *c07Schema, only []string) *Wi
 			w.Tpl = fmt.Sprintf("SELECT COUNT(*) AS n FROM {T} x JOIN {T2} y ON x.%s = y.%s GROUP BY x.%s, x.o.w", k, c2, s)
 		}
 		w.Unordered = true
+	case "cte-union-nested":
+		// a UNION below the level of the WITH clause (in a derived table, as the body of a second CTE) whose arms both read the CTE
+		if rapid.Bool().Draw(t, "cun-derived") {
+			w.Tpl = fmt.Sprintf("WITH c AS (SELECT {F@cte-body:%s} AS u FROM {T}%s) SELECT x.u FROM (SELECT u FROM c UNION ALL SELECT u FROM c) x", k, optWhere("w", ""))
+		} else {
+			w.Tpl = fmt.Sprintf("WITH c AS (SELECT {F@cte-body:%s} AS u FROM {T}), d AS (SELECT u FROM c UNION SELECT u FROM c WHERE u %s %s) SELECT * FROM d", k, op("op"), num("c"))
+			w.Unordered = true
+		}
 	case "like-is":
 		w.Tpl = fmt.Sprintf("SELECT %s, %s FROM {T} WHERE {F@like-operand:%s} LIKE %s OR {F@is-operand:%s} IS NULL OR %s IS NOT NULL", k, s, s, sq.StrLit(rapid.SampledFrom([]string{"a%", "%b", "_", "%"}).Draw(t, "pat")), "nokey", v)
 	}
